@@ -114,6 +114,60 @@ impl H {
     }
 }
 
+/// History independence: every recorded operation is a function of its arguments and its tape, so executing it
+/// again -- after all the later operations of the run, in reverse order, and twice in a row -- must give the
+/// recorded outcome. A memo, cache or scratch buffer that survives between calls and is keyed too coarsely shows
+/// up here even when the generator never happened to produce the poisoning sequence in its forward order.
+/// Key generation with its own safe-prime search is skipped (cost); the pass stops after `budget_s` seconds.
+fn history_pass(h: &mut H, prop: &str, budget_s: u64) {
+    let t0 = std::time::Instant::now();
+    let n = h.records.len().min(h.lines.len());
+    let deciders: Vec<usize> = (0..n).filter(|&i| {
+        let op = h.records[i]["op"].as_str().unwrap_or("");
+        op.contains("verify") || op.contains("frombytes")
+    }).collect();
+    let others: Vec<usize> = (0..n).filter(|&i| {
+        let op = h.records[i]["op"].as_str().unwrap_or("");
+        !(op.contains("verify") || op.contains("frombytes")) && op != "cl.keygen" && op != "cl.cpk"
+    }).collect();
+    let pick = |v: &Vec<usize>, cap: usize| -> Vec<usize> {
+        let stride = (v.len() + cap - 1) / cap.max(1);
+        v.iter().cloned().step_by(stride.max(1)).collect()
+    };
+    let mut sel = pick(&deciders, 500);
+    sel.extend(pick(&others, 120));
+    sel.sort();
+    sel.reverse();
+    let mut checked = 0u64;
+    for i in sel {
+        if t0.elapsed().as_secs() >= budget_s {
+            break;
+        }
+        let want = h.lines[i].split(" => ").nth(1).unwrap_or("").to_string();
+        let id = h.records[i]["id"].as_u64().unwrap_or(0);
+        let rec = h.records[i].clone();
+        for pass in 0..2 {
+            let mut h2 = H::new(h.suite, 0, h.thorough, id);
+            ops::replay_record(&mut h2, &rec);
+            let got = match h2.lines.last() {
+                Some(l) => l.split(" => ").nth(1).unwrap_or("").to_string(),
+                None => break,
+            };
+            checked += 1;
+            let cut = |s: &str| -> String { s.chars().take(60).collect() };
+            let same = got == want;
+            h.expect(same, &format!("{}.history_dependence", prop),
+                &format!("operation {} ({}) returned '{}' in the run and '{}' when executed again {} -- its outcome depends on earlier calls",
+                    id, rec["op"].as_str().unwrap_or(""), cut(&want), cut(&got),
+                    if pass == 0 { "after the later operations of the run" } else { "a second time in a row" }), &[id]);
+            if !same {
+                break;
+            }
+        }
+    }
+    *h.stats.entry("history_pass.reexecuted".to_string()).or_insert(0) += checked;
+}
+
 fn main() {
     let args: Vec<String> = std::env::args().collect();
     if args.len() >= 2 && args[1] == "consts" {
@@ -168,6 +222,7 @@ fn main() {
         for suite in suites {
             let mut h = H::new(suite, seed ^ fnv(&prop) ^ fnv(suite).rotate_left(13), thorough, next_id);
             gen::run(&mut h, &prop);
+            history_pass(&mut h, &prop, if thorough { 150 } else { 25 });
             next_id = h.next_id;
             oracle_checks += h.oracle_checks;
             all_lines.append(&mut h.lines);
